@@ -13,7 +13,7 @@ from ..runner import Campaign, HarnessError, run_shards
 from ..ref import choice as rc
 
 PID = "C14"
-RULE = ("cases = (Choice state, input) pairs run as one-Choice machines through the engine. Table part: all 39 operators x 21 variable values "
+RULE = ("cases = (Choice state, input) pairs run as one-Choice machines through the engine. Table part: all 39 operators x 22 variable values "
         "(missing, null, booleans, numbers, strings incl. wildcard text, timestamps in three notations, non-timestamp text, [], {}, nested) x typed constants, "
         "literal and *Path form (existing / wrong-typed / missing reference). Generated part: And/Or/Not trees over those atoms, ordered rule lists with and "
         "without Default, StringMatches patterns over {letters * \\* ? [ ] .}, InputPath != '$' with *Path operands. Non-trivial = wrong-typed or missing "
@@ -22,14 +22,15 @@ RULE = ("cases = (Choice state, input) pairs run as one-Choice machines through 
 TS1 = "2016-03-14T01:59:00Z"
 TS1B = "2016-03-13T20:59:00-05:00"       # same instant as TS1
 TS1C = "2016-03-14T07:29:00+05:30"       # same instant, minute offset
+TS1D = "2016-03-13T22:29:00-03:30"       # same instant, negative minute offset
 TS2 = "2016-03-14T02:00:00.5Z"           # later instant
 MISSING = "<missing>"
-VARIABLES = [MISSING, None, True, False, 0, 1, -1, 1.5, "", "a", "b", "A", "a*", TS1, TS1B, TS1C, TS2, "not-a-timestamp", [], {}, {"x": 1}]
+VARIABLES = [MISSING, None, True, False, 0, 1, -1, 1.5, "", "a", "b", "A", "a*", TS1, TS1B, TS1C, TS1D, TS2, "not-a-timestamp", [], {}, {"x": 1}]
 STR_CONSTS = ["", "a", "b", "A", "a*", TS1]
 NUM_CONSTS = [0, 1, -1, 1.5, 2]
 BOOL_CONSTS = [True, False]
-TS_CONSTS = [TS1, TS1B, TS1C, TS2]
-REF_VALUES = [True, False, 0, 1, 1.5, "", "a", "A", TS1, TS1C, TS2, None, [], MISSING]
+TS_CONSTS = [TS1, TS1B, TS1C, TS1D, TS2]
+REF_VALUES = [True, False, 0, 1, 1.5, "", "a", "A", TS1, TS1C, TS1D, TS2, None, [], MISSING]
 
 _world = None
 _world_uses = 0
@@ -217,14 +218,16 @@ def tree_shard(k, seed, tier, examples=300):
     camp = Campaign(PID, rule=RULE, tier=tier, seed=seed)
     depth = 4 if tier == "thorough" else 2
 
-    doc = {"b": True, "f": False, "n": 1, "z": 0, "x": 1.5, "s": "a", "e": "", "S": "A", "t": TS1, "t2": TS2, "tm": TS1C, "nul": None,
+    doc = {"b": True, "f": False, "n": 1, "z": 0, "x": 1.5, "s": "a", "e": "", "S": "A", "t": TS1, "t2": TS2, "tm": TS1C, "tn": TS1D, "nul": None,
            "arr": [], "o": {"k": 2}}
-    var_paths = ["$.b", "$.f", "$.n", "$.z", "$.x", "$.s", "$.e", "$.S", "$.t", "$.t2", "$.tm", "$.nul", "$.arr", "$.o.k", "$.zz"]
+    var_paths = ["$.b", "$.f", "$.n", "$.z", "$.x", "$.s", "$.e", "$.S", "$.t", "$.t2", "$.tm", "$.tn", "$.nul", "$.arr", "$.o.k", "$.zz"]
+
+    shared_var = [None]
 
     @st.composite
     def atom(draw):
-        op = draw(st.sampled_from(rc.ALL_OPS))
-        var = draw(st.sampled_from(var_paths))
+        op = draw(st.sampled_from(rc.ALL_OPS + list(rc.IS_OPS) * 2)) if shared_var[0] else draw(st.sampled_from(rc.ALL_OPS))
+        var = shared_var[0] or draw(st.sampled_from(var_paths))
         r = {"Variable": var}
         base = op[:-4] if op.endswith("Path") and op[:-4] in rc.VALUE_OPS else op
         if op in rc.IS_OPS:
@@ -261,7 +264,9 @@ def tree_shard(k, seed, tier, examples=300):
 
     @st.composite
     def states(draw):
-        n = draw(st.integers(1, 3))
+        # a third of the cases put every atom on the same Variable (often a missing one): repeated look-ups of one path
+        shared_var[0] = draw(st.sampled_from([None, None, None, None, "$.zz", "$.zz", "$.nul", "$.n", "$.t"]))
+        n = draw(st.integers(2, 3)) if shared_var[0] else draw(st.integers(1, 3))
         choices = []
         for i in range(n):
             r = dict(draw(tree(depth)))
@@ -300,7 +305,8 @@ def tree_shard(k, seed, tier, examples=300):
             camp.count("skipped-unspecified")
             return
         d = max(tdepth({k: v for k, v in r.items() if k != "Next"}) for r in s["Choices"])
-        camp.case(case, nontrivial=(d >= 2 or len(s["Choices"]) >= 2), classes=["tree", "depth-%d" % min(d, 4), "rules-%d" % len(s["Choices"]), kind])
+        same = len(set(__import__("re").findall(r'"Variable": "([^"]+)"', json.dumps(s)))) == 1 and json.dumps(s).count('"Variable"') >= 2
+        camp.case(case, nontrivial=(d >= 2 or len(s["Choices"]) >= 2), classes=["tree", "depth-%d" % min(d, 4), "rules-%d" % len(s["Choices"]), kind] + (["same-variable-repeated"] if same else []))
         for b, dd in fails:
             camp.fail(b, case, dd)
 
@@ -319,7 +325,7 @@ def calibrate():
         want = datetime.datetime.fromisoformat(s.replace("Z", "+00:00")).timestamp()
         if abs(timefmt.parse_us(s) / 1e6 - want) > 1e-6:
             raise HarnessError("ref.timefmt calibration failed on %s" % s)
-    if timefmt.parse_us(TS1) != timefmt.parse_us(TS1B) or timefmt.parse_us(TS1) != timefmt.parse_us(TS1C):
+    if len({timefmt.parse_us(x) for x in (TS1, TS1B, TS1C, TS1D)}) != 1:
         raise HarnessError("timestamp alphabet is wrong")
     # the repo's own test expectations (test_choice_state.py), one per operator family
     T = rc.compare
